@@ -1,7 +1,7 @@
 (* C07 — parts of the full statement that are false of the faithful model, by witness *)
 From Coq Require Import String Ascii List Bool ZArith Arith.
 Import ListNotations.
-Require Import V.Lib.PyStr V.Lib.JTree V.Conf.Model V.Reload.Model V.Reload.Obs V.Reload.Idem.
+Require Import V.Lib.PyStr V.Lib.JTree V.Conf.Model V.Reload.Model V.Reload.Obs V.Reload.Idem V.Reload.Dir.
 Open Scope string_scope.
 
 (* F7b (repaired).  The pinned instance() replaced environments per NAME ([fl_envs_pinned]): with e = {A:1, B:2} on the
@@ -128,3 +128,12 @@ Proof.
   repeat split; vm_compute; reflexivity.
 Qed.
 Print Assumptions C07_stage_replica_pinned_refuted.
+
+(* The directory (Dir.v).  C07_recreate_stores needs the decision of _generate_instance_files as it is: with the guard `an
+   existing description is only replaced when the configuration was parsed from the INSTANCE flavour` (generate_guarded) an
+   experiment built from the package files of a directory that holds the description 7 of another experiment does not store
+   its own (1), although the update was requested: the directory reloads as the other experiment. *)
+Theorem C07_recreate_guarded_refuted : exists (mine old : nat),
+  generate_guarded false true true mine (Some old) <> Some mine /\ generate nat true true mine (Some old) = Some mine.
+Proof. exists 1, 7. split; [vm_compute; discriminate|reflexivity]. Qed.
+Print Assumptions C07_recreate_guarded_refuted.
